@@ -105,11 +105,13 @@ structure Rep (p : PList) (xs fs : List Nat) (s : LState) : Prop where
   free : s.free = fs.map (· - 1)
   nb : p.nblocks = s.nblocks
   sz : p.size = xs.length
-  bound : ∀ x ∈ xs ++ fs, x ≤ 4 * p.nblocks
-  cnt : (xs ++ fs).length = 4 * p.nblocks
+  bound : ∀ x ∈ xs ++ fs, x ≤ p.bk * p.nblocks
+  cnt : (xs ++ fs).length = p.bk * p.nblocks
+  bk : p.bk = s.bk
+  bkpos : 0 < p.bk
 
-theorem rep_init : Rep init [] [] {} :=
-  ⟨trivial, rfl, rfl, rfl, by simp, rfl, rfl, rfl, rfl, by simp, by simp [init]⟩
+theorem rep_init (k : Nat) (hk : 0 < k) : Rep (init k) [] [] { bk := k } :=
+  ⟨trivial, rfl, rfl, rfl, by simp, rfl, rfl, rfl, rfl, by simp, by simp [init], rfl, hk⟩
 
 end Nstd.Seq.Ptr
 
@@ -262,7 +264,7 @@ theorem link_rep (p : PList) (xs fs : List Nat) (f : Nat) (s : LState) (h : Rep 
         simp only [lastOr] at e
         injection e with e
         exact ab_disj q (by simp) (by rw [e]; simp [hm])
-  refine ⟨?_, ?_, ?_, ?_, ?_, ?_, ?_, ?_, ?_, ?_, ?_⟩
+  refine ⟨?_, ?_, ?_, ?_, ?_, ?_, ?_, ?_, ?_, ?_, ?_, h.bk, h.bkpos⟩
   · rw [seg_append]; exact ⟨seg_a, seg_b⟩
   · rw [lastOr_append]
     cases b with
@@ -316,7 +318,7 @@ theorem link_rep (p : PList) (xs fs : List Nat) (f : Nat) (s : LState) (h : Rep 
     exact h.bound x this
   · have := h.cnt
     rw [hx] at this
-    show (a ++ f :: b ++ fs).length = 4 * p.nblocks
+    show (a ++ f :: b ++ fs).length = p.bk * p.nblocks
     simp only [List.length_append, List.length_cons] at this ⊢
     omega
 
@@ -324,46 +326,92 @@ end Nstd.Seq.Ptr
 
 namespace Nstd.Seq.Ptr
 
+/-- the addresses `k*b + j, …, k*b + 1` -/
+def descAddrs (k b j : Nat) : List Nat := (List.range j).reverse.map (k * b + 1 + ·)
+
+theorem descAddrs_succ (k b j : Nat) : descAddrs k b (j + 1) = (k * b + 1 + j) :: descAddrs k b j := by
+  simp [descAddrs, List.range_succ]
+
+theorem descAddrs_mem (k b j x : Nat) (h : x ∈ descAddrs k b j) : k * b < x ∧ x ≤ k * b + j := by
+  simp only [descAddrs, List.mem_map, List.mem_reverse, List.mem_range] at h
+  obtain ⟨y, hy, rfl⟩ := h
+  omega
+
+theorem descAddrs_nodup (k b j : Nat) : (descAddrs k b j).Nodup := by
+  have h1 : (List.range j).reverse.Nodup := (List.reverse_perm _).nodup_iff.2 List.nodup_range
+  exact List.Pairwise.map _ (fun a c h e => h (by omega)) h1
+
+theorem descAddrs_map_pred (k b j : Nat) :
+    (descAddrs k b j).map (· - 1) = (List.range j).reverse.map (k * b + ·) := by
+  simp only [descAddrs, List.map_map]
+  apply List.map_congr_left
+  intro x _
+  simp only [Function.comp]
+  omega
+
+theorem refill_freechain (p : PList) : ∀ j, j ≤ p.bk →
+    FreeChain (refill p) (if j = 0 then none else some (p.bk * p.nblocks + j)) (descAddrs p.bk p.nblocks j) := by
+  intro j
+  induction j with
+  | zero => intro _; simp [descAddrs, FreeChain]
+  | succ j ih =>
+    intro hj
+    rw [descAddrs_succ]
+    refine ⟨by simp; omega, by omega, ?_⟩
+    have hp : (refill p).prev (p.bk * p.nblocks + 1 + j) = (if j = 0 then none else some (p.bk * p.nblocks + j)) := by
+      simp only [refill]
+      have c1 : p.bk * p.nblocks < p.bk * p.nblocks + 1 + j ∧ p.bk * p.nblocks + 1 + j ≤ p.bk * p.nblocks + p.bk := by omega
+      simp only [c1, and_self, if_true]
+      by_cases hj0 : j = 0
+      · simp [hj0]
+      · have : ¬ (p.bk * p.nblocks + 1 + j = p.bk * p.nblocks + 1) := by omega
+        simp only [this, if_false, hj0]
+        congr 1; omega
+    rw [hp]
+    exact ih (by omega)
+
 /-- allocating a block when the free list is empty -/
 theorem refill_rep (p : PList) (xs : List Nat) (s : LState) (h : Rep p xs [] s) :
-    Rep (refill p) xs [4 * p.nblocks + 4, 4 * p.nblocks + 3, 4 * p.nblocks + 2, 4 * p.nblocks + 1]
-      { s with free := [4 * s.nblocks + 3, 4 * s.nblocks + 2, 4 * s.nblocks + 1, 4 * s.nblocks],
-               nblocks := s.nblocks + 1 } := by
-  have hb : ∀ x ∈ xs, x ≤ 4 * p.nblocks := fun x hx => h.bound x (by simp [hx])
-  have prev_o : ∀ x, x ≤ 4 * p.nblocks → (refill p).prev x = p.prev x := by
+    Rep (refill p) xs (descAddrs p.bk p.nblocks p.bk)
+      { s with free := (List.range s.bk).reverse.map (s.bk * s.nblocks + ·), nblocks := s.nblocks + 1 } := by
+  have hb : ∀ x ∈ xs, x ≤ p.bk * p.nblocks := fun x hx => h.bound x (by simp [hx])
+  have prev_o : ∀ x, x ≤ p.bk * p.nblocks → (refill p).prev x = p.prev x := by
     intro x hx
     simp only [refill]
-    rw [set_ne _ _ _ _ (by omega), set_ne _ _ _ _ (by omega), set_ne _ _ _ _ (by omega), set_ne _ _ _ _ (by omega)]
-  refine ⟨?_, ?_, ?_, ?_, ?_, ?_, ?_, ?_, ?_, ?_, ?_⟩
+    have : ¬ (p.bk * p.nblocks < x ∧ x ≤ p.bk * p.nblocks + p.bk) := by omega
+    simp only [this, if_false]
+  have hfc := refill_freechain p p.bk (Nat.le_refl _)
+  have hk0 : ¬ p.bk = 0 := by have := h.bkpos; omega
+  simp only [hk0, if_false] at hfc
+  refine ⟨?_, ?_, ?_, ?_, ?_, ?_, ?_, ?_, ?_, ?_, ?_, h.bk, h.bkpos⟩
   · exact seg_congr p _ xs 0 none (fun x hx => ⟨prev_o x (hb x hx), rfl⟩) h.seg
   · rw [prev_o 0 (by omega)]; exact h.endp
   · exact h.beg
-  · simp only [FreeChain, refill]
-    refine ⟨trivial, by omega, ?_, by omega, ?_, by omega, ?_, by omega, ?_⟩
-    · rw [set_same]
-    · rw [set_ne _ _ _ _ (by omega), set_same]
-    · rw [set_ne _ _ _ _ (by omega), set_ne _ _ _ _ (by omega), set_same]
-    · rw [set_ne _ _ _ _ (by omega), set_ne _ _ _ _ (by omega), set_ne _ _ _ _ (by omega), set_same]
+  · exact hfc
   · have nx : xs.Nodup := by simpa using h.nd
     rw [List.nodup_append]
-    refine ⟨nx, by simp <;> omega, ?_⟩
+    refine ⟨nx, descAddrs_nodup _ _ _, ?_⟩
     intro a ha c hc
     have := hb a ha
-    simp at hc
+    have := descAddrs_mem _ _ _ c hc
     omega
   · exact h.nodes
-  · simp [h.nb]
-  · simp [refill, h.nb]
+  · show (List.range s.bk).reverse.map (s.bk * s.nblocks + ·) = _
+    rw [descAddrs_map_pred, h.bk, h.nb]
+  · show p.nblocks + 1 = s.nblocks + 1
+    rw [h.nb]
   · exact h.sz
   · intro x hx
-    simp only [List.mem_append, List.mem_cons, List.not_mem_nil, or_false] at hx
-    show x ≤ 4 * (p.nblocks + 1)
-    rcases hx with hx | hx | hx | hx | hx
+    show x ≤ p.bk * (p.nblocks + 1)
+    rw [Nat.mul_succ]
+    rcases List.mem_append.1 hx with hx | hx
     · have := hb x hx; omega
-    all_goals omega
+    · have := descAddrs_mem _ _ _ x hx; omega
   · have := h.cnt
-    show (xs ++ _).length = 4 * (p.nblocks + 1)
-    simp at this ⊢; omega
+    show (xs ++ descAddrs p.bk p.nblocks p.bk).length = p.bk * (p.nblocks + 1)
+    simp only [List.append_nil] at this
+    rw [List.length_append, this, Nat.mul_succ]
+    simp [descAddrs]
 
 /-- `insert` on the heap does what `insertRaw` does on the chain model; the returned item is the
     new node, which sits at position `k` of the new chain -/
@@ -391,16 +439,33 @@ theorem insert_rep (p : PList) (xs fs : List Nat) (s : LState) (h : Rep p xs fs 
     have hfree : p.free = none := h.fr
     have hsfree : s.free = [] := by rw [h.free]; rfl
     have hr := refill_rep p xs s h
-    have := link_rep (refill p) xs _ (4 * p.nblocks + 4) _ hr k hk v
-    refine ⟨link (refill p) (4 * p.nblocks + 4) ((xs.drop k).headD 0) v, 4 * p.nblocks + 4,
-      [4 * p.nblocks + 3, 4 * p.nblocks + 2, 4 * p.nblocks + 1], ?_, ?_, getk _⟩
+    obtain ⟨j, hj⟩ : ∃ j, p.bk = j + 1 := ⟨p.bk - 1, by have := h.bkpos; omega⟩
+    have hd : descAddrs p.bk p.nblocks p.bk = (p.bk * p.nblocks + p.bk) :: descAddrs p.bk p.nblocks j := by
+      conv => lhs; rw [show descAddrs p.bk p.nblocks p.bk = descAddrs p.bk p.nblocks (j + 1) by rw [← hj]]
+      rw [descAddrs_succ]; congr 1; omega
+    rw [hd] at hr
+    have := link_rep (refill p) xs _ (p.bk * p.nblocks + p.bk) _ hr k hk v
+    refine ⟨link (refill p) (p.bk * p.nblocks + p.bk) ((xs.drop k).headD 0) v, p.bk * p.nblocks + p.bk,
+      descAddrs p.bk p.nblocks j, ?_, ?_, getk _⟩
     · simp [insert, hfree, refill]
-    · have e : (s.insertRaw k v).1 =
-          { s with nodes := s.nodes.take k ++ (4 * p.nblocks + 4 - 1, v) :: s.nodes.drop k,
-                   free := [4 * s.nblocks + 2, 4 * s.nblocks + 1, 4 * s.nblocks], nblocks := s.nblocks + 1 } := by
-        simp [LState.insertRaw, LState.allocNode, hsfree, h.nb]
+    · have hsk : s.bk = j + 1 := by rw [← h.bk]; exact hj
+      have harith : p.bk * p.nblocks + p.bk - 1 = s.bk * s.nblocks + (s.bk - 1) := by
+        rw [← h.bk, ← h.nb]; have := h.bkpos; omega
+      have e : (s.insertRaw k v).1 =
+          { s with nodes := s.nodes.take k ++ (p.bk * p.nblocks + p.bk - 1, v) :: s.nodes.drop k,
+                   free := (List.range (s.bk - 1)).reverse.map (s.bk * s.nblocks + ·), nblocks := s.nblocks + 1 } := by
+        simp only [LState.insertRaw, LState.allocNode, hsfree, harith]
       rw [e]
-      simpa using this
+      have htail : ∀ (c n : Nat), ((List.range (n + 1)).reverse.map (c + ·)).tail = (List.range n).reverse.map (c + ·) := by
+        intro c n; simp [List.range_succ]
+      have hfree' : ((List.range s.bk).reverse.map (s.bk * s.nblocks + ·)).tail =
+          (List.range (s.bk - 1)).reverse.map (s.bk * s.nblocks + ·) := by
+        have := htail (s.bk * s.nblocks) (s.bk - 1)
+        rwa [show s.bk - 1 + 1 = s.bk by omega] at this
+      have hs' : ({ s with free := (List.range s.bk).reverse.map (s.bk * s.nblocks + ·), nblocks := s.nblocks + 1 } : LState).free.tail
+          = (List.range (s.bk - 1)).reverse.map (s.bk * s.nblocks + ·) := hfree'
+      rw [hs'] at this
+      exact this
 
 end Nstd.Seq.Ptr
 
@@ -506,7 +571,8 @@ theorem unlink_rep (p : PList) (a b fs : List Nat) (item : Nat) (s : LState)
       have x_ne_i : x ≠ item := fun e => i_notin_b (by rw [← e]; simp [hm])
       exact ⟨prev_o x x_ne_i (by simpa using x_ne_y), next_o x (not_last x (b_notin_a x (by simp [hm])))⟩
   have hval : p'.val = p.val := by rw [← hp']
-  refine ⟨?_, ?_, ?_, ?_, ?_, ?_, ?_, ?_, ?_, ?_, ?_⟩
+  have hbk : p'.bk = p.bk := by rw [← hp']
+  refine ⟨?_, ?_, ?_, ?_, ?_, ?_, ?_, ?_, ?_, ?_, ?_, by rw [hbk]; exact h.bk, by rw [hbk]; exact h.bkpos⟩
   · rw [seg_append]; exact ⟨seg_a, seg_b⟩
   · rw [lastOr_append]
     cases b with
@@ -548,7 +614,7 @@ theorem unlink_rep (p : PList) (a b fs : List Nat) (item : Nat) (s : LState)
     rw [h.sz]; simp
   · intro x hm
     have hn : p'.nblocks = p.nblocks := by rw [← hp']
-    rw [hn]
+    rw [hn, hbk]
     apply h.bound x
     simp only [List.mem_append, List.mem_cons] at hm ⊢
     rcases hm with (hm | hm) | hm | hm
@@ -558,7 +624,7 @@ theorem unlink_rep (p : PList) (a b fs : List Nat) (item : Nat) (s : LState)
     · exact Or.inr hm
   · have := h.cnt
     have hn : p'.nblocks = p.nblocks := by rw [← hp']
-    rw [hn]
+    rw [hn, hbk]
     simp only [List.length_append, List.length_cons] at this ⊢
     omega
 
@@ -600,12 +666,12 @@ theorem nextlinks_congr (p p' : PList) (hn : p'.next = p.next) : ∀ (b : List N
 theorem clearLoop_spec : ∀ (b : List Nat) (p : PList) (acc : List Nat) (fuel : Nat),
     NextLinks p b → FreeChain p p.free acc → (b ++ acc).Nodup → b.length ≤ fuel →
     ∃ p1, clearLoop p fuel (b.headD 0) = some p1 ∧ FreeChain p1 p1.free (b.reverse ++ acc) ∧
-      p1.val = p.val ∧ p1.nblocks = p.nblocks := by
+      p1.val = p.val ∧ p1.nblocks = p.nblocks ∧ p1.bk = p.bk := by
   intro b
   induction b with
   | nil =>
     intro p acc fuel _ hf _ _
-    refine ⟨p, ?_, by simpa using hf, rfl, rfl⟩
+    refine ⟨p, ?_, by simpa using hf, rfl, rfl, rfl⟩
     cases fuel <;> rfl
   | cons y b ih =>
     intro p acc fuel hl hf hnd hfu
@@ -641,7 +707,7 @@ theorem clearLoop_spec : ∀ (b : List Nat) (p : PList) (acc : List Nat) (fuel :
 
 theorem clear_rep (p : PList) (xs fs : List Nat) (s : LState) (h : Rep p xs fs s) :
     ∃ p', clear p = some p' ∧ Rep p' [] (xs.reverse ++ fs) s.clear := by
-  obtain ⟨p1, e1, e2, e3, e4⟩ := clearLoop_spec xs p fs p.size (nextlinks_of_seg p xs none h.seg) h.fr h.nd
+  obtain ⟨p1, e1, e2, e3, e4, e5⟩ := clearLoop_spec xs p fs p.size (nextlinks_of_seg p xs none h.seg) h.fr h.nd
     (by rw [h.sz]; exact Nat.le_refl _)
   rw [← h.beg] at e1
   refine ⟨{ p1 with begin := 0, prev := set p1.prev 0 none, size := 0 }, by simp only [clear, e1], ?_⟩
@@ -652,7 +718,7 @@ theorem clear_rep (p : PList) (xs fs : List Nat) (s : LState) (h : Rep p xs fs s
     · exact seg_ne_zero p xs 0 none h.seg x hx
     · exact freechain_ne_zero p fs _ h.fr x hx
   have perm : (xs.reverse ++ fs).Perm (xs ++ fs) := (List.reverse_perm xs).append_right fs
-  refine ⟨trivial, ?_, rfl, ?_, perm.nodup_iff.2 h.nd, ?_, ?_, ?_, rfl, ?_, ?_⟩
+  refine ⟨trivial, ?_, rfl, ?_, perm.nodup_iff.2 h.nd, ?_, ?_, ?_, rfl, ?_, ?_, ?_, ?_⟩
   · show set p1.prev 0 none 0 = none
     rw [set_same]
   · refine freechain_congr p1 _ _ _ ?_ e2
@@ -665,9 +731,13 @@ theorem clear_rep (p : PList) (xs fs : List Nat) (s : LState) (h : Rep p xs fs s
   · show p1.nblocks = _
     rw [e4]; exact h.nb
   · intro x hx
-    show x ≤ 4 * p1.nblocks
-    rw [e4]; exact h.bound x (perm.mem_iff.1 hx)
-  · show (xs.reverse ++ fs).length = 4 * p1.nblocks
-    rw [e4, perm.length_eq]; exact h.cnt
+    show x ≤ p1.bk * p1.nblocks
+    rw [e4, e5]; exact h.bound x (perm.mem_iff.1 hx)
+  · show (xs.reverse ++ fs).length = p1.bk * p1.nblocks
+    rw [e4, e5, perm.length_eq]; exact h.cnt
+  · show p1.bk = _
+    rw [e5]; exact h.bk
+  · show 0 < p1.bk
+    rw [e5]; exact h.bkpos
 
 end Nstd.Seq.Ptr
